@@ -48,6 +48,18 @@ def bridge_patterns(u, heavy=9, light=1):
     return out
 
 
+def code_maxf(r):
+    """the largest value among the elements the model does NOT ignore (user-ignored and zero-scaled elements excluded) -
+    what the code's own bound w_max = k * max f is computed from; used only to emulate that bound."""
+    out_ = {tuple(x) if isinstance(x, list) else x for x in r.get("ign", [])}
+    out_ |= {tuple(t[0]) if isinstance(t[0], list) else t[0] for t in r.get("escale", []) if t[1] == 0}
+    if r["mode"] == "node":
+        vals = [w for v, w in zip(r["nodes"], r["nw"]) if w != vlib.NONE and v not in out_]
+    else:
+        vals = [w for e, w in zip(r["edges"], r["ew"]) if w != vlib.NONE and tuple(e) not in out_]
+    return max(vals) if vals else 0
+
+
 def fit_adversary(recs, res, exact, clause="OptimalObjective"):
     adv = []
     for r in recs:
@@ -82,8 +94,7 @@ def fit_adversary(recs, res, exact, clause="OptimalObjective"):
     for a in adv:
         if a["id"] in wit and a["cls"].endswith("Cycles"):
             b = dict(a)
-            vals = [x for x in (a["nw"] if a["mode"] == "node" else a["ew"]) if x != vlib.NONE]
-            b["prodcap"] = a["k"] * (max(vals) if vals else 0)
+            b["prodcap"] = a["k"] * code_maxf(a)
             again.append(b)
     wit2 = P.adversary("Adv_Fit", again, res) if again else {}
     for b in again:
